@@ -32,6 +32,7 @@ func init() {
 			ruleNoChanBlockUnderCloseLocks(r, le, "T14")
 			ruleCloseNotBehindIO(r, le, "T15")
 			ruleAtomicReadModifyWrite(r, "T16", "/transport", "/wire", "/iscp", "/internal")
+			ruleC18T17(r, le)
 		},
 	})
 }
@@ -911,4 +912,60 @@ func instrCallOrNil(ins ssa.Instruction) *ssa.CallCommon {
 		return nil
 	}
 	return instrCall(ins)
+}
+
+// ruleC18T17: readLoop and writeLoop redial with the transport's mutex held for the whole redial budget, and the redial
+// gives up only when it sees the transport's context cancelled. Close therefore has to cancel BEFORE it asks for that
+// mutex: the other way round it waits for every remaining dial attempt (which are all made after Close was called).
+func ruleC18T17(r *Run, le *LockEngine) {
+	r.Begin("T17", "Close cancels before it waits: in (*reconnect.Transport).CloseWithStatus the call of the transport's cancel function dominates the first acquisition of a mutex that is held while reconnect dials", 1)
+	p := r.P
+	cl := r.method(rcPkg, "Transport", "CloseWithStatus")
+	rc := r.method(rcPkg, "Transport", "reconnect")
+	if cl == nil || rc == nil {
+		return
+	}
+	// mutexes held while reconnect runs (by its callers)
+	held := map[string]bool{}
+	for _, site := range p.staticCallSites(rc) {
+		for k := range le.HeldAt(site) {
+			held[k[strings.IndexByte(k, '.')+1:]] = true
+		}
+	}
+	if w, _ := p.forwardingWrapperOf(rc); w != nil {
+		for _, site := range p.staticCallSites(w) {
+			for k := range le.HeldAt(site) {
+				held[k[strings.IndexByte(k, '.')+1:]] = true
+			}
+		}
+	}
+	name := fnName(cl)
+	var firstLock, cancel ssa.Instruction
+	allInstrs(cl, func(ins ssa.Instruction) {
+		cc := instrCall(ins)
+		if cc == nil {
+			return
+		}
+		if _, isDefer := ins.(*ssa.Defer); isDefer {
+			return
+		}
+		if op, recv := classifyLockCall(cc); op == opLock || op == opRLock {
+			if pa := pathOf(recv); pa != nil && pa.Last() != nil && held[pa.Last().Name()] {
+				if firstLock == nil || dominatesInstr(ins, firstLock) {
+					firstLock = ins
+				}
+			}
+			return
+		}
+		if cc.StaticCallee() == nil && !cc.IsInvoke() && hasLeaf(p.Leaves(cc.Value, provOpts{}), "field:"+rcPkg+".Transport.cancel") {
+			if cancel == nil || dominatesInstr(ins, cancel) {
+				cancel = ins
+			}
+		}
+	})
+	if firstLock == nil {
+		r.Check(name+" cancels before it waits for the redial", true, p.pos(cl.Pos()), name, fmt.Sprintf("Close acquires none of the mutexes held while reconnect dials (%v)", keysOf(held)))
+		return
+	}
+	r.Check(name+" cancels before it waits for the redial", cancel != nil && dominatesInstr(cancel, firstLock), posOf(p, firstLock), name, "Close asks for a mutex that readLoop/writeLoop hold for the whole redial budget before it has cancelled the transport's context: it waits for every remaining dial attempt, all of which are made after Close was called, and pending Reads and Writes stay blocked as long")
 }
